@@ -28,22 +28,8 @@ import (
 
 func init() { kit.Register("C03", runC03) }
 
-func waitUntil(cond func() bool, d time.Duration) bool {
-	deadline := time.Now().Add(d)
-	for i := 0; ; i++ {
-		if cond() {
-			return true
-		}
-		if time.Now().After(deadline) {
-			return false
-		}
-		if i < 50 {
-			time.Sleep(50 * time.Microsecond)
-		} else {
-			time.Sleep(time.Millisecond)
-		}
-	}
-}
+// waitUntil: kit.WaitUntil (bound d, extended by kit.Patience before a state that decides a verdict is judged missing).
+func waitUntil(cond func() bool, d time.Duration) bool { return kit.WaitUntil(cond, d) }
 
 // parkedIn reports how many goroutines whose stack contains fn are parked in sync.Cond.Wait.
 func parkedIn(fn string) int {
